@@ -449,6 +449,10 @@ def run(ck, m):
     clr0 = next((c for c in body_walk(cf) if isinstance(c, ast.Call) and norm(c.func).endswith(".clear")), None)
     rets5 = [r for r in body_walk(cf) if isinstance(r, ast.Return) and r.value is not None]
     bl5 = [st for t, st in stores_in(ast.Module(body=kd.body, type_ignores=[])) if isinstance(t, ast.Subscript) and isinstance(t.slice, ast.Constant) and t.slice.value == "blend" and norm(st.value) == "False"]
+    if not bl5:
+        # `kwargs.update(blend=False)` / `<overrides>.update(blend=False)`: the same store, spelled as a call
+        bl5 = [enclosing_stmt(c_) for c_ in body_walk(kd) if isinstance(c_, ast.Call) and isinstance(c_.func, ast.Attribute) and c_.func.attr == "update"
+               and any(k_.arg == "blend" and norm(k_.value) == "False" for k_ in c_.keywords)]
     ck.expect(clr0 is not None and bool(rets5) and len(bl5) == 1, "kitty: clear call / returns of _clear_frame / the blend=False store of _display_animated not recognised")
     if clr0 is not None and rets5 and len(bl5) == 1:
         P5 = lambda src: ast.parse(src, mode="eval").body
